@@ -220,6 +220,17 @@ inline tainted<int, S> cb_refparam(rlbox_sandbox<S>&, tainted<int, S>& x) { retu
 inline int* cb_rawptrret(rlbox_sandbox<S>&, tainted<int, S>) { return &canary_target[0]; }
 inline tainted<int, S> cb_secondsbx(tainted<int, S> x, rlbox_sandbox<S>&) { return x; }
 inline tainted<int, S> cb_plainptrparam(rlbox_sandbox<S>&, int*) { return 1; }
+// references to wrappers are not "tainted/tainted_opaque parameters": the interceptor passes wrappers by value
+inline tainted<int, S> cb_constrefparam(rlbox_sandbox<S>&, const tainted<int, S>& x) { return x; }
+inline tainted<int, S> cb_opaquerefparam(rlbox_sandbox<S>&, const tainted_opaque<int, S>& x) { return from_opaque(x); }
+inline tainted<int, S> cb_opaquemutrefparam(rlbox_sandbox<S>&, tainted_opaque<int, S>& x) { return from_opaque(x); }
+inline tainted<int, S> cb_opaquervalrefparam(rlbox_sandbox<S>&, tainted_opaque<int, S>&& x) { return from_opaque(x); }
+inline tainted<int, S> cb_opaqueptrrefparam(rlbox_sandbox<S>&, const tainted_opaque<int*, S>& x) { (void)x; return 1; }
+inline tainted_opaque<int, S> g_cb_static_opaque;
+inline tainted_opaque<int, S>& cb_opaquerefret(rlbox_sandbox<S>&, tainted<int, S>) { return g_cb_static_opaque; }
+inline const tainted<int, S>& cb_constrefret(rlbox_sandbox<S>&, tainted<int, S>) { static tainted<int, S> t = 1; return t; }
+inline tainted<int, S> cb_sbxbyvalue(rlbox_sandbox<S>*, tainted<int, S> x) { return x; }
+inline tainted<int, S> cb_volatileparam(rlbox_sandbox<S>&, tainted_volatile<int, S>& x) { return x; }
 inline tainted<long, S> cb_good2(rlbox_sandbox<S>&, tainted<long, S> x) { return x; }
 inline tainted_opaque<int, S> cb_good_opaque(rlbox_sandbox<S>&, tainted_opaque<int, S> x) { return x; }
 inline tainted<long, S> cb_long(rlbox_sandbox<S>&, tainted<long, S> x) { return x; }
